@@ -29,7 +29,7 @@ PROPS = {
         'assumptions': [],
     },
     'C01': {
-        'lean': ['H8.Props.C01', 'H8.Props.C08', 'H8.Props.C01M', 'H8.Props.C01N', 'H8.Props.C01L', 'H8.Props.C02I', 'H8.Props.C08D', 'H8.Props.C01P', 'H8.Props.C08W'],
+        'lean': ['H8.Props.C01', 'H8.Props.C08', 'H8.Props.C01M', 'H8.Props.C01N', 'H8.Props.C01L', 'H8.Props.C02I', 'H8.Props.C08D', 'H8.Props.C01P', 'H8.Props.C08W', 'H8.Props.C08L', 'H8.Props.C08X'],
         'gen': ['consts', 'buscost', 'busmap', 'dispatch'],
         'runs': [{'mode': 'step', 'shards': 16}],
         'rule': "single-step cases on the real Cpu (fetch+exec through the verif hook) from a tagged background memory (every byte = hash of its address) with the full register file, CCR, PC, cost and the complete delta of all five stores compared: per form of spec/isa.tbl every combination of the register fields (x2), all 256 initial CCR values, every value of immediate/bit/condition fields, seeded random instances with boundary-value register files and operand addresses at both ends of on-chip RAM, DRAM and the vector area; address registers with zero upper byte (the upper byte is C08's subject). distinct non-trivial = distinct (form, first instruction bytes, resulting register file) triples of in-domain cases.",
@@ -78,7 +78,7 @@ PROPS = {
         'assumptions': ['the hand-written Model/Cpu.lean mirrors the Rust handlers (checked by the correspondence run on every case); only its dispatch tables are regenerated from source'],
     },
     'C08': {
-        'lean': ['H8.Props.C08', 'H8.Props.C08D', 'H8.Props.C08W'],
+        'lean': ['H8.Props.C08', 'H8.Props.C08D', 'H8.Props.C08W', 'H8.Props.C08L', 'H8.Props.C08X'],
         'gen': ['consts', 'buscost', 'busmap', 'dispatch'],
         'runs': [{'mode': 'step', 'shards': 16}],
         'rule': 'single-step cases on the real Cpu (fetch+exec through the verif hook) from a tagged background memory (every byte = hash of its address) with the full register file, CCR, PC, cost and the complete delta of all five stores compared: per form of spec/isa.tbl every combination of the register fields (x2), all 256 initial CCR values, every value of immediate/bit/condition fields, seeded random instances with boundary-value register files and operand addresses at both ends of on-chip RAM, DRAM and the vector area; base registers with every upper byte, sums that wrap modulo 2^24, all EA kinds incl. stack and @@aa:8. distinct non-trivial = distinct (form, first instruction bytes, resulting register file) triples of in-domain cases.',
